@@ -418,6 +418,9 @@ func init() {
 		}
 		return p.constString(strings.ToUpper(a))
 	})
+	reg("crypto/internal/constanttime.boolToUint8", func(p *Path, fn *ssa.Function, args []Value) Value {
+		return p.tc.Ite(args[0].(*Term), p.tc.Const(8, 1), p.tc.Const(8, 0))
+	})
 	reg("internal/abi.NoEscape", func(p *Path, fn *ssa.Function, args []Value) Value { return args[0] })
 	reg("internal/abi.Escape", func(p *Path, fn *ssa.Function, args []Value) Value { return args[0] })
 	reg("crypto/internal/fips140/subtle.ConstantTimeCompare", nil)
